@@ -29,6 +29,10 @@ MISSED = {
     "C17_c": "BranchingModel was called once per model -> branching histories: add/remove/default/calls with overlapping input-dependent conditions on one object",
     "C19_c": "PAPR gradient only at the default limit 3.0 -> limits 1.2, 1.5, 2, 6 on more shapes and seeds (reaches the late clipping phase)",
     "C20_c": "only the decoded message of a decoder was compared -> the second output (soft estimate / error pattern) as a component of its own, one non-codeword member per soft batch, one arbitrary word per hard batch",
+    "C04_d": "the Reed-Muller inverse was skipped for k > 11 in C04 (cost) -> exercised up to k = 16 (RM(3,4), RM(2,5)) on unit vectors, all-ones, zero and random messages",
+    "C08_d": "targets started at 1e-2 -> targets 1e-4 and 1e-3 (an absolute tolerance inside the constraint only shows at small targets with low-power inputs)",
+    "C11_d": "each decoder object decoded only clean batches -> C11.c' : the same decoder first decodes an arbitrary noisy batch of the same size, then noise-free LLRs of other messages",
+    "C17_d": "the recording feedback stages never produced the same feedback twice -> tensor-valued stages with changing, constant and saturating feedback for 1..5 rounds",
 }
 for tag in sys.argv[1:]:
     pid = tag.split("_")[0]
